@@ -179,7 +179,7 @@ fn core_plan(prop: &str, thorough: bool, seed: u64, all_cases: &[CaseRec], tidx:
             }
         }
         "C03" => {
-            let n_inst = if thorough { 4 } else { 2 };
+            let n_inst = if thorough { 3 } else { 2 };
             for case in cases.iter().copied().filter(|c| !c.unaltered) {
                 let is_slow = slow(&case.mint.pr);
                 for i in 0..n_inst {
@@ -201,7 +201,7 @@ fn core_plan(prop: &str, thorough: bool, seed: u64, all_cases: &[CaseRec], tidx:
                             chars: if thorough { 4000 } else if is_slow { 60 } else { 400 },
                             other: if thorough { 64 } else { 12 },
                         },
-                        max_tokens: if thorough && is_slow { 8000 } else if thorough { 60000 } else if is_slow { 200 } else { 3000 },
+                        max_tokens: if thorough && is_slow { 2000 } else if thorough { 20000 } else if is_slow { 200 } else { 3000 },
                         offdiag_tokens: if thorough { 40 } else { 6 },
                         max_violations: 20,
                     };
